@@ -621,12 +621,11 @@ GROUPS["solver_log_t2"] = dict(GROUPS["cnf_parser_t2"], **{
     "inject": _stub_injects("flussab-cnf/src/token.rs", _CNF_TOKEN_SPECS)
               + [("flussab-cnf/src/sat_solver_log.rs", r"\} else \{\n(?=\s*let mut expected = vec!\[\"comment line)",
                   "            #[cfg(kani)]\n            if crate::token::verif_stub::on() {\n                return Err(crate::token::verif_stub::any_err());\n            }\n")],
-    "flags": ["--default-unwind", "5"],
+    "flags": ["--default-unwind", "2"],
     "rss_gb": 20,
     "timeout": {"quick": 1000, "thorough": 3600},
     "harnesses": [
-        ("parse_log_i8", {"props": ["C06", "C04", "C05", "C07"], "cost": 8, "what": "parse_log dispatcher: complete only at the clean end of a healthy source, assignment literals non-zero and in range, terminating 0 required"}),
-        ("reach_parse_log", {"kind": "reach", "tiers": T, "cost": 8, "what": "vacuity twin"}),
+        ("parse_log_i8", {"props": ["C04", "C05"], "cost": 3, "what": "parse_log dispatcher at the end of the input (no further token succeeds): a log is complete only through the eof token of a healthy source; a failed source gives the I/O error, also when unknown lines are ignored"}),
     ],
 })
 
@@ -659,6 +658,26 @@ def _cnf_t3(kind):
 
 for _k in ("cnf", "wcnf", "gcnf"):
     GROUPS["%s_t3" % _k] = _cnf_t3(_k)
+
+# C12 probe (NOT part of any check; C12 is not applicable): renumber_aig on every 1-input/1-gate graph
+# with the hash maps replaced by an association-list model: symex 600 s, then out of memory at
+# 24 GB in propositional reduction. Kept so that the measurement can be repeated.
+GROUPS["aig_c12"] = {
+    "name": "aig_c12",
+    "package": "flussab-aiger",
+    "prefix": "aig::verif_c12::",
+    "overlay": [("flussab-aiger/src/aig.rs", "c12", "harness/aiger/aig_c12.rs")],
+    "overlay_extra": [("flussab-aiger/src/aig.rs", "map", "harness/aiger/model_map.rs")],
+    "subst_src": [("flussab-aiger/src/aig.rs", r"use std::\{borrow::Cow, collections::hash_map, hash::Hash\};", "use std::{borrow::Cow, hash::Hash};\nuse verif_map::hash_map;"),
+                  ("flussab-aiger/src/aig.rs", r"use zwohash::HashMap;", "use verif_map::HashMap;")],
+    "flags": ["--default-unwind", "12"],
+    "rss_gb": 24,
+    "timeout": {"quick": 1500, "thorough": 3600},
+    "harnesses": [
+        ("renumber_one_gate", {"cost": 9, "what": "probe"}),
+        ("renumber_one_gate_undefined", {"cost": 9, "what": "probe"}),
+    ],
+}
 
 GROUPS["parser_c15"] = {
     "name": "parser_c15",
@@ -874,7 +893,7 @@ PROPERTIES["C03"] = {
 }
 
 NOT_APPLICABLE = {
-    "C12": "AIG renumbering is one explicit-stack DFS over std HashMaps with no smaller unit; Kani does not finish symbolic execution even for a 1-gate circuit (>15 min, see DESIGN.md section 1 and C12); a MIR executor is out of reach of this task. Not switching technique.",
+    "C12": "AIG renumbering is one explicit-stack DFS over hash maps with no smaller unit that carries the property (function preservation, order, cycle detection are properties of the whole traversal). Measured: with std/zwohash HashMap Kani does not finish symbolic execution even for a 1-gate circuit (>15 min); with the maps replaced by an association-list model (harness/aiger/model_map.rs, aig_c12.rs) the 1-input/1-gate instance takes 600 s of symbolic execution and then runs out of memory at 24 GB; a path-wise MIR executor is not installed. Not switching technique (DESIGN.md sections 1, 4, 7).",
 }
 
 # A harness tagged with a property always runs in that property's check: derive the group lists
